@@ -1275,3 +1275,42 @@ pub fn play_takebacks(games: u64, seed: u64, worker: usize, mon: &mut dyn Monito
         }
     }
 }
+
+/// W5e: null turns on wide-open positions. From a wide or scattered position (gen::wide) the script plays a
+/// capture-free step of a non-rabbit piece, takes it back, plays it again and tries to take it back once more -
+/// the fourth step would end the turn on the unchanged board and must not be offered (the script then falls
+/// back to uniform play). Every direction and every region of the board is tried, with the longest step lists
+/// the rules allow.
+pub fn play_null_turns(games: u64, seed: u64, worker: usize, mon: &mut dyn Monitor, sink: &mut Sink) {
+    let mut rng = Rng::new(seed, (worker as u64) << 8 | 0x5E);
+    let opts = PlayOpts { max_turns: 3, max_actions: 14, ..PlayOpts::default() };
+    for idx in 0..games {
+        let (b, gold, mv) = gen::wide(&mut rng);
+        let legal = b.legal(gold, 0, Pend::None);
+        let cands: Vec<Code> = legal
+            .iter()
+            .filter(|c| {
+                is_step(*c) && {
+                    let (sq, d) = (code_sq(*c), code_dir(*c));
+                    let cl = b.0[sq];
+                    cl != 0 && is_gold(cl) == gold && strength(cl) != 0 && b.apply(gold, Pend::None, sq, d).map_or(false, |a| a.captured.is_empty() && !TRAPS.contains(&a.to))
+                }
+            })
+            .collect();
+        if cands.is_empty() {
+            sink.count("null_turn_script_construction_failed");
+            continue;
+        }
+        // westward steps of pieces low on the board come last in most generation orders: every other game prefers the end of the list
+        let a = if idx % 2 == 0 { cands[rng.below(cands.len())] } else { cands[cands.len() - 1 - rng.below(cands.len().min(6))] };
+        let to = match nb(code_sq(a), code_dir(a)) {
+            Some(t) => t,
+            None => continue,
+        };
+        let undo = step_code(to, opp(code_dir(a)));
+        let script = vec![a, undo, a, undo];
+        sink.count("null_turn_scripts");
+        let mut rec = GameRecord::new("W5e-null-turn", seed, (worker as u64) << 32 | idx, Start::Inject { board: b, gold, moveno: mv });
+        play(&mut rec, Policy::Script(script), &opts, &mut rng, mon, sink);
+    }
+}
